@@ -22,7 +22,18 @@ pub enum LazyBigint {
 impl LazyBigint {
     pub(crate) fn true_div(self, rhs: Self) -> f64 {
         match (self, rhs) {
-            (Self::Short(s1), Self::Short(s2)) => s1 as f64 / s2 as f64,
+            (Self::Short(s1), Self::Short(s2)) => {
+                // both operands convert to f64 exactly only up to 2**53; beyond that dividing the
+                // rounded operands rounds twice (9007199254740995 / 7), so divide the exact ratio
+                const EXACT: SmallInt = 1 << f64::MANTISSA_DIGITS;
+                if (-EXACT..=EXACT).contains(&s1) && (-EXACT..=EXACT).contains(&s2) {
+                    s1 as f64 / s2 as f64
+                } else {
+                    BigRational::new(BigInt::from(s1), BigInt::from(s2))
+                        .to_f64()
+                        .unwrap()
+                }
+            }
             (Self::Short(s), Self::Long(b)) => {
                 BigRational::new(BigInt::from(s), b).to_f64().unwrap()
             }
